@@ -122,6 +122,18 @@ CHECKS = {
                      '(the property\'s "up to floating point rounding"); dates that are not representable are reported.',
                 technique='TLA+ fluid semantics PipeSem evaluated by TLC for every enumerated scenario; all scenarios replayed on '
                           'the real code; observed dates validated by TLC against the TLA+ monitor ObsC13'),
+    'C15': dict(obs='ObsC15', ref='4/C15',
+                text='RunM.tla models run() with the per-thread loop state (assign/restore) and TLC checks Isolation for every '
+                     'interleaving of enter/exit/probe steps of two threads with nested simulations (the shared-state deviation is '
+                     'rejected by TLC); the harness executes every single run of one or two roots (ok, raising, returning a value, '
+                     'nested run succeeding / failing and caught) and seeded random run sequences, sequentially and in 2-4 real '
+                     'threads forced to overlap inside their simulations, into one lock-ordered trace; TLC validates each trace '
+                     'against ObsC15 (root order and start, unchanged first exception, ActivityLeak, quiescence at return, '
+                     'time.now outside/inside, outer clock after nested runs, nothing after return, no foreign loop).',
+                note='OS thread interleavings are sampled (barrier-forced overlap plus switch interval 1e-5); TLC enumerates them '
+                     'only at operation granularity in RunM.',
+                technique='TLA+ spec RunM model-checked by TLC; traces of real (threaded) runs validated by TLC against the TLA+ '
+                          'monitor ObsC15'),
 }
 
 
